@@ -154,9 +154,13 @@ class more_core(Contract):
             ('item walks the mapping in block-sized steps', z3.And(i >= 0, i <= count, item == base + i * S, base == c.local(entry, 'item'))),
             ('the mapping holds count blocks', z3.And(count >= 0, count < BV(1 << 40, 64), c.valid(base, count * S), base != 0,
                                                       z3.ULT(base, BV(1 << 46, 64)))),
+            ('the blocks fit in the mapping',
+             z3.And(z3.ULE(count * S, c.global_value(st, 'allocate_num_pages', 64) * c.global_value(st, '_pagesize', 64)),
+                    z3.ULT(c.global_value(st, 'allocate_num_pages', 64) * c.global_value(st, '_pagesize', 64), BV(1 << 45, 64)))),
             ('the rest of the mapping is still untracked',
              z3.ForAll([a], z3.Implies(z3.And(z3.ULE(item, a), z3.ULT(a, base + count * S)),
                                        z3.And(z3.Not(z3.Select(infree, a)), z3.Not(z3.Select(live, a)))))),
+            ('one more tracked block per iteration', g(st, 'cl_count') == g(entry, 'cl_count') + i),
             ('live closures are not touched', live == g(c.old, 'cl_live'))]
 
     def _loop_ghost(self, c, st_before, st_after):
@@ -166,7 +170,7 @@ class more_core(Contract):
         return {'cl_infree': z3.Store(g(st_after, 'cl_infree'), item, True),
                 'cl_rank': z3.Store(g(st_after, 'cl_rank'), item, n + 1), 'cl_count': n + 1}
 
-    loops = property(lambda self: {0: LoopSpec(invariant=self._loop_inv, ghost_update=self._loop_ghost)})
+    loops = property(lambda self: {0: LoopSpec(invariant=self._loop_inv, ghost_update=self._loop_ghost, forget=('count',))})
 
     def post(self, c):
         return [(lab + ' (invariant re-established)', f) for lab, f in INV(c, c.new, split=True)] + \
@@ -307,7 +311,7 @@ for _nm in ('gil_ensure', 'gil_release'):
         trusted = True
 
         def frame(self, c):
-            return Frame(all_raw=True, all_fields=True)
+            return Frame(all_raw=True, all_fields=True, trace=[])
     R.add(_G)
 
 
